@@ -359,7 +359,7 @@ pub mod thread {
                     }
                     // sleeping is thread-local; the effect point is what lets the child run
                     super::with_sim(|t| {
-                        t.sleep(50_000);
+                        t.sleep_raw(50_000);
                         t.effect_point();
                     });
                 }
@@ -518,7 +518,7 @@ pub mod mpsc {
                     Ok(v) => return Ok(v),
                     Err(TryRecvError::Disconnected) => return Err(RecvError),
                     Err(TryRecvError::Empty) => {
-                        with_sim(|s| s.sleep(50_000));
+                        with_sim(|s| s.sleep_raw(50_000));
                     }
                 }
             }
@@ -536,10 +536,12 @@ pub mod mpsc {
                     Err(TryRecvError::Disconnected) => return Err(RecvTimeoutError::Disconnected),
                     Err(TryRecvError::Empty) => {
                         if waited >= total {
+                            // the blocking call as a whole oversleeps like one sleep would
+                            with_sim(|s| s.sleep(0));
                             return Err(RecvTimeoutError::Timeout);
                         }
                         let step = 50_000.min(total - waited).max(1);
-                        with_sim(|s| s.sleep(step));
+                        with_sim(|s| s.sleep_raw(step));
                         waited += step;
                     }
                 }
